@@ -473,7 +473,7 @@ class Differential:
                 ctx.cov['traces_validated_against_impl'] += 1
             if len(ctx.cov['samples']) < 4 and self.nontrivial(c, i) and len(c) < 400:
                 ctx.sample({'harness': self.name, 'case': c, 'impl': i[:600], 'model': (m or '')[:600], 'spec': (s or '')[:400]})
-            o = self.oracle(c, i, s) if self.run_spec or s is None else None
+            o = self.oracle(c, i, s)
             if o:
                 self.oracle_fail.append((c, i, m, s, o))
             k = self.corr(c, i, m) if self.run_model else None
@@ -518,15 +518,12 @@ class Differential:
         if self.corr_fail and not reported:
             # correspondence broken but the oracle was clean on the regular streams:
             # directed search for a concrete failing input
-            found = False
             if extra_search:
                 before = len(self.oracle_fail)
                 extra_search(self)
                 if len(self.oracle_fail) > before:
-                    self.corr_fail_saved = self.corr_fail
+                    self.oracle_fail = self.oracle_fail[before:]
                     self.corr_fail = []
-                    tail = self.oracle_fail[before:]
-                    self.oracle_fail = tail
                     return self.report(None)
             c, i, m, s, why = self.corr_fail[0]
             c2 = self.shrink(c, self._fails_corr)
